@@ -117,6 +117,7 @@ type eng struct {
 	tasks    []*simrt.Task
 	faults   bool
 	pending  map[string]*attemptRec // fresh dial per backend addr awaiting its request
+	filt     *filters
 }
 
 // ---- generation ---------------------------------------------------------------
@@ -133,7 +134,8 @@ func (e *eng) genConf(nconn int) *nconf {
 		cl := &ncluster{Name: name, Subs: map[string][]*nbackend{}, SubWeights: map[string]int{},
 			RetryMax: tp.Draw(3, "retry_max"), CrossRetry: tp.Draw(2, "cross_retry"), RetryLevel: tp.Draw(2, "retry_level"),
 			MaxIdle: []int{0, 2}[tp.Draw(2, "max_idle")], RespHdrTO: []int{200, 2000}[tp.Draw(2, "resp_hdr_to")], ConnTO: 500,
-			ReadCliTO: 30000, WriteCliTO: 60000, ReadAgain: []int{1000, 30000}[tp.Draw(2, "read_again")], ReqBuf: []int{0, 64, 512}[tp.Draw(3, "req_buf")]}
+			ReadCliTO: 30000, WriteCliTO: 60000, ReadAgain: []int{1000, 30000}[tp.Draw(2, "read_again")], ReqBuf: []int{0, 64, 512}[tp.Draw(3, "req_buf")],
+			ResFlush: []int{-1, -1, 0, 5, 50}[tp.Draw(5, "res_flush")]}
 		nsub := tp.Range(1, 2, "n_subs")
 		for si := 0; si < nsub; si++ {
 			sn := fmt.Sprintf("sub%d.%s", si, name)
@@ -145,6 +147,9 @@ func (e *eng) genConf(nconn int) *nconf {
 				e.addrSub[b.AddrInfo()] = sn
 			}
 			cl.SubWeights[sn] = tp.Range(1, 5, "sub_weight")
+		}
+		if tp.Chance(1, 4, "blackhole") {
+			cl.SubWeights["GSLB_BLACKHOLE"] = 0 // the stock layout: a blackhole entry with weight 0
 		}
 		c.Clusters = append(c.Clusters, cl)
 		c.Hosts[fmt.Sprintf("h%d.example", ci)] = name
@@ -230,7 +235,14 @@ func (e *eng) genReq(id, conn int) *reqPlan {
 		p.Chunked = p.Proto == "HTTP/1.1" && tp.Chance(1, 3, "req_chunked")
 	}
 	p.Fields = append(p.Fields, href.Field{"X-Req-Id", fmt.Sprintf("%d", id)})
-	if tp.Chance(1, 3, "ua") {
+	if (p.Method == "POST" || p.Method == "PUT") && p.Proto == "HTTP/1.1" && len(p.Body) > 0 && tp.Chance(1, 4, "expect_100") {
+		// the client does not wait for 100 Continue: head and body go out together
+		p.Fields = append(p.Fields, href.Field{"Expect", "100-continue"})
+		e.s.Probe("expect_100_request")
+	}
+	if tp.Chance(1, 8, "sse") {
+		p.Fields = append(p.Fields, href.Field{"Accept", "text/event-stream"})
+	} else if tp.Chance(1, 3, "ua") {
 		p.Fields = append(p.Fields, href.Field{"User-Agent", "sim/1.0"}, href.Field{"Accept", "*/*"})
 	}
 	// hop-by-hop material (C26): fixed list members and fields named by Connection
@@ -551,6 +563,14 @@ func (e *eng) runClient(ci int, pipeline int) func() {
 		addr := fmt.Sprintf("192.0.2.%d:%d", 10+ci, 5000+ci)
 		conn := e.n.connect(addr)
 		defer conn.Close()
+		pause := 0
+		if e.faults && e.tp.Chance(1, 3, "slow_client") {
+			// a slow client: tiny receive window and pauses between reads, so the node's
+			// writes toward it block while the backend keeps sending
+			conn.SetWindow([]int{16, 200, 2000}[e.tp.Draw(3, "client_window")])
+			pause = []int{1, 7, 60}[e.tp.Draw(3, "client_pause_ms")]
+			e.s.Probe("slow_client")
+		}
 		plans := e.byConn[ci]
 		tmp := make([]byte, 4096)
 		for i := 0; i < len(plans); i += pipeline {
@@ -573,6 +593,9 @@ func (e *eng) runClient(ci int, pipeline int) func() {
 				e.parseClient(cr, false)
 				if cr.ParseErr != nil || len(finals(cr.Responses)) >= len(cr.Sent) {
 					break
+				}
+				if pause > 0 {
+					simrt.Sleep(time.Duration(pause) * time.Millisecond)
 				}
 				k, err := conn.Read(tmp)
 				cr.Raw = append(cr.Raw, tmp[:k]...)
